@@ -329,6 +329,11 @@ def r18_5(ctx):
                               f"distance mixes component {qi} of the query with component {ei} of the palette entry: `{norm(n)}`")
         ctx.floor(pairs, 3, "component differences in the distance closure")
         return
+    # an explicit search loop (running minimum kept in locals that are re-assigned inside a for loop) is another algorithm: not read here
+    loop_assigned = {t.id for lp_ in walk_local(f.node) if isinstance(lp_, (ast.For, ast.While)) for x_ in ast.walk(lp_) if isinstance(x_, ast.Assign) for t in x_.targets if isinstance(t, ast.Name)}
+    for r in rets:
+        if isinstance(r.value, ast.Name) and r.value.id in loop_assigned:
+            raise AnalysisError(f"Palette.match: `{norm(r)}` returns a value maintained by an explicit search loop; R18.5 interprets min(range(..), key=..), list.index(min(..)) and min((distance, index) ..) only")
     ctx.check((mincall is not None or shape_b is not None) and not other, f.fq, "return min(...)", f.where, "match returns the result of builtin min (or a cached copy of it)",
               f"Palette.match returns something other than the builtin min(...) over the palette indices: {other}")
     if mincall is None and shape_b is None:
